@@ -9,7 +9,7 @@ export GOFLAGS=-mod=mod GOPROXY=off GOSUMDB=off GOTOOLCHAIN=local
 wt=/tmp/confirm-wt-$ID-$k
 git -C /repo worktree add --detach $wt HEAD >/dev/null 2>&1 || exit 2
 demo=$(ls $src/${L}_demo/*_test.go | head -1)
-pkgdir=$(grep -o 'pkg/[a-z0-9/]*' $src/${L}_demo/README | head -1); pkgdir=${pkgdir%/}
+pkgdir=$(grep -o '\(pkg\|cmd\)/[a-z0-9/]*' $src/${L}_demo/README | head -1); pkgdir=${pkgdir%/}
 runpat=$(grep -o '\-run [A-Za-z0-9_]*' $src/${L}_demo/README | head -1 | cut -d' ' -f2)
 TAGS=""; grep -q -- '-tags verif' $src/${L}_demo/README && TAGS="-tags verif"
 cp $demo $wt/$pkgdir/
